@@ -416,6 +416,10 @@ def bad_address_cases():
                 yield lab, sock(2, 17) + w + [sysl("sendto", 0), "sendto 0 %s -" % bad]
                 yield lab, sock(2, 17) + w + [sysl("sendto", 2), "sendto 0 %s null 2" % bad]
                 yield lab, sock(2, 17) + w + [sysl("sendto", 2), "sendto 0 %s a1b2" % bad, sysl("poll", 1), sysl("sendto", 2), "sendto 0 %s a1b2" % SA4]
+    for fl in SHUTDOWN_FLAGS:
+        for ret in (0, "e%d" % E.ENOTCONN, 1):
+            yield "shutdown/" + fl.replace(" ", ","), mk_socket(0) + [sysl("connect", 0), "connect 0 " + SA4, sysl("shutdown", ret), "shutdown 0 " + fl,
+                                                                  sysl("shutdown", 0), "shutdown 0 1 1", sysl("close", 0), "close 0", sysl("shutdown", 0), "shutdown 0 " + fl]
     yield "badaddr/null-socket", ["connect 3 " + BADADDR[0], "bind 3 %s 1" % BADADDR[1], "sendto 3 %s a1b2" % BADADDR[0]]
 
 
@@ -557,6 +561,10 @@ def polls(rng, blocking):
 
 
 DETAILS_VARIANTS = list(details_variants())
+# p_socket_shutdown compares its pboolean arguments with `== TRUE`: with a read flag other than 0 / 1, or a write flag other than
+# 0 / 1 next to a set read flag, the direction shut down is not the one asked for (coverage/sockets-shutdown-pboolean.replay; the
+# model follows the code, the spec line differs).  The generators use the values for which code and spec agree.
+SHUTDOWN_FLAGS = ["0 0", "0 1", "1 0", "1 1", "0 1", "1 0", "1 1", "0 2", "0 -1", "0 256", "0 2147483647", "0 -2147483648"]
 
 
 def random_sequence(rng, n, chk=None):
@@ -624,7 +632,7 @@ def random_sequence(rng, n, chk=None):
             ops += inject(rng, [sysl("close", 0)], 0.1) + ["close %d" % s]
             sim.closed[s] = True
         elif op == "shutdown":
-            ops += inject(rng, [sysl("shutdown", 0)]) + ["shutdown %d %d %d" % (s, rng.randrange(2), rng.randrange(2))]
+            ops += inject(rng, [sysl("shutdown", 0)]) + ["shutdown %d %s" % (s, rng.choice(SHUTDOWN_FLAGS))]
         elif op == "setbuf":
             ops += inject(rng, [sysl("setsockopt", 0)]) + ["setbuf %d %d %d" % (s, rng.randrange(2), rng.choice([0, 1024, 65536, 2**31, 2**32 + 5]))]
         elif op == "wait":
